@@ -39,7 +39,7 @@ type H struct {
 
 // Step of a sequential history.
 type Step struct {
-	K         string `json:"k"` // sub pub count
+	K         string `json:"k"`           // sub pub count
 	H         int    `json:"h,omitempty"` // sub: index into Handlers
 	T         int    `json:"t,omitempty"` // pub/count: 0,1,2
 	ID        int    `json:"id,omitempty"`
@@ -78,9 +78,9 @@ func filterOpt[T any](f string, id func(T) int) []eventbus.SubscribeOption {
 
 type calls struct {
 	armErr error
-	mu sync.Mutex
-	n  []int   // per handler
-	ev [][]int // per handler: event ids seen
+	mu     sync.Mutex
+	n      []int   // per handler
+	ev     [][]int // per handler: event ids seen
 }
 
 // armed runs the arming callback after recording the call.
@@ -256,7 +256,7 @@ func RunSeq(c *SeqCase) *vkit.Outcome {
 			publish(bus, s.T, s.ID, s.Cancelled, s.UseCtx, s.Any)
 			bus.Wait()
 			var keep []*mreg
-			var newRegs []int // handlers armed by Once handlers fired in this publish
+			var newRegs []int     // handlers armed by Once handlers fired in this publish
 			cancelledNow := false // the publish context was cancelled by a handler of this publish
 			for _, r := range regs[s.T] {
 				h := c.Handlers[r.h]
